@@ -22,10 +22,11 @@ import (
 // never modifies inputs; Verify modifies nothing.
 
 type c02Case struct {
-	Kind string   `json:"kind"` // "p2", "p1", "create2", "create1", "disk"
-	P2   *p2Case  `json:"p2,omitempty"`
-	P1   *p1Case  `json:"p1,omitempty"`
-	Ref  *c10Case `json:"ref,omitempty"` // kind "p1ref": a PAR1 set written by the reference writer (entries not saved in the parity set among the saved ones, a comment), judged with the same write oracle
+	Kind string        `json:"kind"` // "p2", "p1", "create2", "create1", "disk"
+	P2   *p2Case       `json:"p2,omitempty"`
+	P1   *p1Case       `json:"p1,omitempty"`
+	Ref  *c10Case      `json:"ref,omitempty"` // kind "p1ref": a PAR1 set written by the reference writer (entries not saved in the parity set among the saved ones, a comment), judged with the same write oracle
+	Dec  *decProtoCase `json:"dec,omitempty"` // kind "decproto": operation sequences with interrupted Repairs and failing loads on ONE Decoder object (decproto.go): what any Repair of the sequence writes is original or reported as failed
 	// disk: the exported API on a real directory full of decoy files
 	Fmt   string `json:"fmt,omitempty"`
 	State string `json:"state,omitempty"` // intact, missing0, changed1, two, all, beyond
@@ -37,6 +38,17 @@ var c02Extras = []string{"/d/unrelated.txt", "/d/sub/x.bin", "/d/s.par2.bak", "/
 var c02Extras1 = []string{"/d/unrelated.txt", "/d/sub/x.bin", "/d/s.par.bak", "/d/s.p01.old", "/d/f0.orig", "/other/s.p01"}
 
 func c02Gen(g *core.Gen) {
+	decDepth := 5
+	if g.Thorough() {
+		decDepth = 6
+	}
+	for _, f := range []string{"p1", "p2"} {
+		for _, a := range dpFaultAlphabet {
+			for _, b := range dpFaultAlphabet {
+				g.Emit(&c02Case{Kind: "decproto", Dec: &decProtoCase{Fmt: f, Prefix: []int{a, b}, Depth: decDepth, Fault: true}})
+			}
+		}
+	}
 	D := 3 // all combinations of <=3 operators of the reduced menu in both tiers; thorough adds pairs and triples over the full menu
 	// PAR2: default sets; menu = reduced data menu + recovery-file operators (+ full data menu at D=1)
 	cfgs := []scen.P2Config{
@@ -348,6 +360,8 @@ func init() {
 				runP1(c.P1, r, p1Clauses{WriteOracle: true})
 			case "p1ref":
 				c10ReadDir(c.Ref, r)
+			case "decproto":
+				decProtoRun(c.Dec, r, func(d *decProtoCase) interface{} { return &c02Case{Kind: "decproto", Dec: d} })
 			case "disk":
 				c02Disk(c, r)
 			default:
